@@ -370,12 +370,45 @@ FIXED_GARBAGE = [b"\x01", b"\x01\x01", b"X\x01", b"XY\x01", b"=\x01", b"1\x01", 
                  b"8=FIX.4.4\x019=5\x0135=0\x01\x0110=161\x01", b"9\x01", b"35\x01", b"34=\x0110=1\x01", b"A" * 5000 + b"\x01", b"10=" * 2000 + b"\x01"]
 
 
+def _frame(ty, seq, body):
+    b = b"".join(b"%s=%s\x01" % (k.encode(), v.encode() if isinstance(v, str) else v)
+                 for k, v in [("35", ty), ("49", "PEER"), ("56", "SRV"), ("34", seq), ("52", "20260101-00:00:00.000")] + body)
+    pre = b"8=FIX.4.4\x019=%d\x01" % len(b) + b
+    return pre + b"10=%03d\x01" % (sum(pre) % 256)
+
+
+def framed_edge_messages():
+    """well-formed messages a peer can send whose CONTENT is at the edge: every administrative type (and SequenceReset) with
+    numbers that are zero, negative, huge or reversed, identifiers that are empty or long; correctly framed, so that they pass the
+    decoder and reach the session's handlers, the store and the send path"""
+    nums = ["0", "-1", "1", "2", "3", "999999", "2147483648", "9223372036854775807", "-9223372036854775808", "00", "+1"]
+    out = []
+    for seq in ("2", "0", "-1", "9223372036854775807"):
+        for b in nums:
+            for e in ("0", "1", "2", "-1", "999999", "9223372036854775807"):
+                if seq == "2" or (b in ("0", "-1") and e in ("0", "2")):
+                    out.append(_frame("2", seq, [("7", b), ("16", e)]))
+        for n in nums:
+            out.append(_frame("A", seq, [("98", "0"), ("108", n)]))
+            out.append(_frame("A", seq, [("98", n), ("108", "30")]))
+            out.append(_frame("4", seq, [("36", n)]))
+            out.append(_frame("4", seq, [("123", "Y"), ("36", n)]))
+            out.append(_frame("3", seq, [("45", n), ("371", n), ("373", n)]))
+        for ident in ("", " ", "x" * 300, "\x00", "10=000", "=", "35=5"):
+            out.append(_frame("1", seq, [("112", ident)]))
+            out.append(_frame("0", seq, [("112", ident)]))
+            out.append(_frame("5", seq, [("58", ident)]))
+        out += [_frame(t, seq, []) for t in ("0", "1", "2", "3", "4", "5", "A", "a", "", "AA")]
+    return [list(m) for m in out]
+
+
 def garbage_check(run, inputs):
     """-> rejects [["C11", id, what, detail]]; a panic of the library inside the driver raises LibraryPanic"""
     binp = go_test_build("./stack/", "stack.test", tags="verif")
     d = run.sub("garbage")
     inp = os.path.join(d, "in.json")
-    allin = [list(b) for b in FIXED_GARBAGE] + inputs
+    edge = framed_edge_messages()
+    allin = [list(b) for b in FIXED_GARBAGE] + edge + [[1]] + edge + inputs     # (twice: once before, once after a proper Logon)
     with open(inp, "w") as f:
         json.dump({"inputs": allin}, f)
     env = goenv()
